@@ -31,7 +31,7 @@ LEVEL_TEXT = ('The writer (`_smiles`: start choice, BFS distances, DFS with cycl
               're-reading the text with both the reader model of C03 and the real reader, judged under the written atom order.')
 LEVEL_NOTE = ('Lean kernel; hand transcription Model/SmilesWriter.lean validated by exact correspondence (not derived from the Python '
               'text); atom weights, CPython set iteration orders and random draws are inputs of the model taken from the real run; '
-              'reader model of C03 imported; stereo marks are outside the Lean writer model (validated on the real code only).')
+              'reader model of C03 and translation functions of C12 (Model/Stereo.lean) imported; the stereogenic-centre tables are inputs.')
 TECHNIQUE = 'Lean 4 executable writer model + round-trip/closure/lexer theorems + exact correspondence + Lean-side structural checkers + re-read judged under the written order'
 HAS_DRIVER = True
 EXTRA_MODULES = []
@@ -178,6 +178,22 @@ def request(op, mol, spec, order, draws):
     xs.append(len(draws))
     for a, v in draws:
         xs += [a if a is not None else 0, v]
+    # stereo tables the writer reads (derived structure tables of MoleculeStereo; inputs of the model)
+    if '!s' not in spec and has_stereo(mol):
+        try:
+            te = [[n] + list(env) for n, env in mol.stereogenic_tetrahedrons.items()]
+            cu = [[e[0], e[1], 0 if e[2] is None else e[2] + 1, 0 if e[3] is None else e[3] + 1] + list(path)
+                  for path, e in mol.stereogenic_cumulenes.items()]
+        except Exception:  # noqa
+            te, cu = [], []
+    else:
+        te, cu = [], []
+    xs.append(len(te))
+    for l in te:
+        xs += [len(l)] + l
+    xs.append(len(cu))
+    for l in cu:
+        xs += [len(l)] + l
     return op + ' ' + ' '.join(map(str, xs))
 
 
@@ -267,7 +283,7 @@ def stereo_diffs(mol, r, back):
             continue
         # terminals of the cumulene chain this bond belongs to
         try:
-            n_, m_ = mol._stereo_cis_trans_centers[x]
+            n_, m_ = mol._stereo_cis_trans_terminals[x]
         except KeyError:
             diffs.append(f'ct-unregistered@{x}-{y}')
             continue
@@ -405,7 +421,7 @@ def correspond(ctx):
             for spec in dict.fromkeys(specs):
                 seed = ctx.rng.getrandbits(30)
                 line, text, order, draws = real_write(m, spec, seed)
-                modelled = not (st and '!s' not in spec)
+                modelled = True
                 nontrivial = m.bonds_count > 0
                 if modelled and ctx.build_ok:
                     reqs.append(request('W', m, spec, order, draws))
